@@ -85,25 +85,25 @@ type run struct {
 	maxDepth  int
 	only      map[int]bool
 
-	mu       sync.Mutex
-	exited   bool
-	timedOut bool
-	wg       sync.WaitGroup
-	pcs      []uintptr
-	status   string
-	exit     int
-	panicC   string
-	panicAt  []string
-	panicS   string
-	hangAt   string
-	timers   []*timer
-	nTimers  int
-	nFired   int
-	doneCh   chan struct{}
-	samples  [][]string
-	sampleAt []int64
-	nextDep  int64
-	guard    *guard
+	mu         sync.Mutex
+	exited     bool
+	timedOut   bool
+	wg         sync.WaitGroup
+	pcs        []uintptr
+	status     string
+	exit       int
+	panicC     string
+	panicAt    []string
+	panicS     string
+	hangAt     string
+	timers     []*timer
+	nTimers    int
+	nFired     int
+	doneCh     chan struct{}
+	samples    [][]string
+	sampleFrom int64
+	nextDep    int64
+	guard      *guard
 
 	ev      uint64
 	mapEvts int
@@ -121,7 +121,10 @@ const (
 	depthEvery      = 1 << 15
 )
 
-var sampleBack = []int64{4507, 3001, 2003, 1009}
+// Stack samples are taken at each of the last nSamples ticks before a verdict: consecutive
+// ticks cover at least one whole iteration of a tight loop, including its loop-head tick,
+// where the stack ends in the loop's home function.
+const nSamples = 64
 
 func fin(z uint64) uint64 { // splitmix64 finaliser
 	z = (z ^ (z >> 30)) * 0xbf58476d1ce4e5b9
@@ -259,18 +262,16 @@ func (r *run) recompute() {
 		v = g.limit
 	}
 	// v is the verdict tick; stack samples are taken shortly before it
-	r.sampleAt = r.sampleAt[:0]
-	for _, b := range sampleBack {
-		if v-b > r.ticks {
-			r.sampleAt = append(r.sampleAt, v-b)
-		}
-	}
 	n := v
-	for _, s := range r.sampleAt {
-		if s > r.ticks && s < n {
-			n = s
-		}
+	if s0 := v - nSamples; s0 > r.ticks {
+		n = s0
+	} else if r.ticks+1 < v {
+		n = r.ticks + 1
 	}
+	if v-nSamples != r.sampleFrom {
+		r.samples = nil
+	}
+	r.sampleFrom = v - nSamples
 	if r.nextDep > r.ticks && r.nextDep < n {
 		n = r.nextDep
 	}
@@ -348,37 +349,48 @@ func cleanFn(fn string) string {
 	return fn
 }
 
+// hangSignature names the loop's (or recursion's) home function.
 func (r *run) hangSignature() string {
-	last := tiFrames(4, 96)
-	if len(r.samples) == 0 {
-		if len(last) > 0 {
-			return last[0]
-		}
+	last := tiFrames(0, 96) // innermost first
+	if len(last) == 0 {
 		return "?"
 	}
-	for _, fn := range last { // innermost first
-		all := true
-		for _, s := range r.samples {
-			found := false
-			for _, g := range s {
-				if g == fn {
-					found = true
-					break
-				}
-			}
-			if !found {
-				all = false
-				break
+	if len(last) >= 90 {
+		// runaway recursion: the function that fills the stack
+		cnt := map[string]int{}
+		best := last[0]
+		for _, f := range last {
+			cnt[f]++
+		}
+		for _, f := range last {
+			if cnt[f] > cnt[best] {
+				best = f
 			}
 		}
-		if all {
-			return fn
-		}
+		return best
 	}
-	if len(last) > 0 {
+	// longest common prefix, outermost first, over all samples: its last element is the
+	// frame that stayed on the stack the whole time, i.e. where the loop lives
+	rev := func(a []string) []string {
+		b := make([]string, len(a))
+		for i := range a {
+			b[len(a)-1-i] = a[i]
+		}
+		return b
+	}
+	pre := rev(last)
+	for _, s := range r.samples {
+		t := rev(s)
+		k := 0
+		for k < len(pre) && k < len(t) && pre[k] == t[k] {
+			k++
+		}
+		pre = pre[:k]
+	}
+	if len(pre) == 0 {
 		return last[len(last)-1]
 	}
-	return "?"
+	return pre[len(pre)-1]
 }
 
 // Tick is inserted at every function entry and loop head: CPU work is virtual time.
@@ -399,10 +411,8 @@ func (r *run) slow() {
 		runtime.Goexit()
 	}
 	t := r.ticks
-	for _, s := range r.sampleAt {
-		if s == t {
-			r.samples = append(r.samples, tiFrames(3, 96))
-		}
+	if t >= r.sampleFrom && r.sampleFrom > 0 && len(r.samples) < nSamples {
+		r.samples = append(r.samples, tiFrames(0, 96))
 	}
 	if t >= r.nextDep {
 		r.nextDep = t + depthEvery
